@@ -157,6 +157,11 @@ func runC16(e *Env) {
 	var frames [][]byte        // injected
 	cutFrame := -1             // this frame's header declares more bytes than are sent; the stream ends after it
 	n := 1 + e.P(5)
+	concurrent := 1
+	if !inject && e.P(4) == 3 {
+		concurrent = 2 + e.P(5) // 2..6 writers
+		n = concurrent + e.P(4)
+	}
 	for i := 0; i < n; i++ {
 		if !isJSON {
 			s := c16Texts[e.P(len(c16Texts))]
@@ -169,12 +174,18 @@ func runC16(e *Env) {
 			if variable && s == "" {
 				s = "v"
 			}
+			if concurrent > 1 {
+				s = fmt.Sprintf("%03d:", i) + s
+			}
 			exps = append(exps, expect{0, s, fmt.Sprintf("text %q", clipS(s, 30))})
 			sendObjs = append(sendObjs, s)
 			frames = append(frames, []byte(s))
 			continue
 		}
 		obj := genJSON(e, 0)
+		if concurrent > 1 {
+			obj["msg-id"] = json.Number(fmt.Sprint(i)) // every message unique: the received multiset is compared
+		}
 		c := canon(obj)
 		if !useNumber {
 			c = canonFloat(c)
@@ -229,7 +240,7 @@ func runC16(e *Env) {
 	if isJSON {
 		codecName = fmt.Sprintf("json(useNumber=%v,disallowUnknown=%v)", useNumber, strict)
 	}
-	e.Describe("frame=%s codec=%s frames=%d injected-by-peer=%v read fragmentation=%d variable-length-carrier=%v exceptions-consumed=%v", fkNames[frameKind], codecName, n, inject, dec.Conn.Frag, variable, sink.Swallow)
+	e.Describe("frame=%s codec=%s frames=%d injected-by-peer=%v read fragmentation=%d variable-length-carrier=%v exceptions-consumed=%v concurrent-writers=%d", fkNames[frameKind], codecName, n, inject, dec.Conn.Frag, variable, sink.Swallow, concurrent)
 	for i, x := range exps {
 		e.Describe("frame %d: %s (expect %s)", i, x.Desc, []string{"delivery", "exception", "delivery or exception"}[x.Kind])
 	}
@@ -253,6 +264,21 @@ func runC16(e *Env) {
 		decPl.ServeChannel(decCh)
 		if enc != nil {
 			enc.Pl.ServeChannel(enc.Ch)
+			if concurrent > 1 {
+				// several goroutines write through the same codec instances at once: frames may arrive in any order
+				for w := 0; w < concurrent; w++ {
+					w := w
+					e.Go(fmt.Sprintf("writer%d", w), func() {
+						for i, o := range sendObjs {
+							if i%concurrent == w {
+								e.Step()
+								enc.Ch.Write(o)
+							}
+						}
+					})
+				}
+				return
+			}
 			e.Go("writer", func() {
 				for _, o := range sendObjs {
 					e.Step()
@@ -304,8 +330,34 @@ func runC16(e *Env) {
 	}
 	cls := fmt.Sprintf("%s,%s", carrier, map[bool]string{true: "json", false: "text"}[isJSON])
 	// ---- oracle ----
+	if concurrent > 1 {
+		used := make([]bool, len(exps))
+		for _, g := range sink.Got {
+			var got string
+			if isJSON {
+				got = canon(g)
+			} else if s, ok := g.(string); ok {
+				got = s
+			}
+			found := false
+			for i, x := range exps {
+				if !used[i] && x.Canon == got {
+					used[i], found = true, true
+					break
+				}
+			}
+			if !found {
+				e.Violate("round-trip", cls+",concurrent-writers", "with %d concurrent writers the receiver got %s, which is none of the (remaining) written messages", concurrent, clipS(got, 120))
+				break
+			}
+		}
+		if len(e.Viol) == 0 && (len(sink.Got) != len(exps) || len(sink.Ex) > 0) {
+			e.Violate("round-trip", cls+",concurrent-writers,count", "%d messages written by %d concurrent writers, %d received, %d decoder exceptions", len(exps), concurrent, len(sink.Got), len(sink.Ex))
+		}
+		e.Count("concurrent_writer_runs", 1)
+	}
 	gi := 0
-	stopped := false
+	stopped := concurrent > 1 // the sequential expectations do not apply to concurrent writers
 	for i, x := range exps {
 		if stopped {
 			break
